@@ -23,12 +23,12 @@ TEXT = {
  "C20": ("tzset(3) resolution model over a virtual file system with a recording reader: exact sequence of paths requested and result class, exhaustively over 56 value shapes x 9 directory lists x all assignments of five file states (absent, valid, garbage, empty, structurally well-formed but not a valid zone); parse_local shorthand", "trusts M-resolve; the real file system is not involved in this check"),
  "C10": ("record-and-replay differential: tz-rs' answers for every transition -1/0/+1, random and far-future instants and local times around every transition since 1970 are logged and replayed offline against CPython zoneinfo and glibc reading the same vendored files (every one of the 1243 paths is loaded and compared at the first use of each local time type; deep events for 66+ files in the quick tier, all paths in the thorough tier; the footer rule's future transitions located by bisection), plus TZ descriptions against glibc's parser", "trusts zoneinfo and glibc 2.36 as oracles, with the exclusions listed in the evidence assumptions"),
  "C11": ("brute-force 400-year definition against the constructor on all 1 324 801 day-notation pairs x breakpoints of d (thorough: all 105 breakpoints, each realised twice), error variant = first violated condition", "trusts M-rule day tables (closed form validated against walking the month over the cycle)"),
- "C12": ("probe zones pin the hidden UTC<->leap-count conversions: forward switch instant, instant reported by the search, their agreement, monotonicity; tables of both signs incl. the real 27-record one", "trusts M-leap (f defined as max{L: g(L)<=u}, brute-force validated)"),
- "C13": ("clause-by-clause validator against both constructors on valid zones, every single-defect perturbation at first/middle/last position, extremes, rule switches placed on the last transition at a leap record, near-equal designations, and random malformed tuples", "trusts the A.3 validator; error variants compared on single-defect inputs only"),
- "C14": ("field invariant applied by the facade to every DateTime produced by any workload of any check, plus a dedicated workload over all constructors, projection and the comparison claims (incl. second-60 values against every other spelling of the same instant)", "trusts M-cal"),
- "C16": ("explicit-sign floor division in i128 against all three total-nanosecond constructors, total_nanoseconds(), range edges, every power of two as a count, i128 extremes, the zone-taking constructor near every switch of generated zones, ns validation of the constructors and of the search on five zone shapes", "trusts M-cal and the 10-line splitter"),
+ "C12": ("probe zones pin the hidden UTC<->leap-count conversions: forward switch instant, instant reported by the search, their agreement, monotonicity; tables of both signs incl. the real 27-record one; probe zones with both offsets away from UTC, transitions closer to a record than the offsets, searches at the edges of the gap judged by the C05/C06 search oracle", "trusts M-leap (f defined as max{L: g(L)<=u}, brute-force validated)"),
+ "C13": ("clause-by-clause validator against both constructors on valid zones, every single-defect perturbation at first/middle/last position, extremes, rule switches placed on the last transition at a leap record, near-equal designations, one to three arbitrary edits of valid zones, and random malformed tuples", "trusts the A.3 validator; error variants compared on single-defect inputs only"),
+ "C14": ("field invariant applied by the facade to every DateTime produced by any workload of any check, every valid search result compared with DateTime::new of the same fields and type, plus a dedicated workload over all constructors, projection and the comparison claims (incl. second-60 values against every other spelling of the same instant)", "trusts M-cal"),
+ "C16": ("explicit-sign floor division in i128 against all three total-nanosecond constructors, total_nanoseconds(), range edges, every power of two as a count, i128 extremes, the zone-taking constructor near every switch of generated zones, counts whose seconds are k*2^64 away from an in-range value, ns validation of the constructors and of the search on five zone shapes and nine dates (Feb 29, second 60, month ends)", "trusts M-cal and the 10-line splitter"),
  "C17": ("find_n against the allocating search for every buffer length 0..k+2 with stale pre-filled buffers, error cases included", "the allocating search is the oracle (its own correctness is C05/C06)"),
- "C18": ("independent regular-grammar reader of the rendering; fields, nanoseconds and offset read back and compared with the getters; offsets over the full i32 range; a Display error is a violation of its own; second 60 at the top of the range", "trusts M-text"),
+ "C18": ("independent regular-grammar reader of the rendering; fields, nanoseconds and offset read back and compared with the getters; offsets over the full i32 range, each carried by four local time types (flag / designation varied); a Display error is a violation of its own; second 60 at the top of the range", "trusts M-text"),
 }
 
 TECH = {
@@ -51,7 +51,7 @@ def entry(pid):
         "engine": "tzmon",
         "level_claimed": {"category": "exploration", "text": text + "; held on the executions listed in the evidence file, not a proof", "design_ref": "DESIGN.md section 5 " + pid},
         "level_note": note,
-        "technique": TECH.get(pid, "runtime monitoring: reference-model oracle on API call/return events of the real code (release + overflow-checked builds, Miri slice)"),
+        "technique": TECH.get(pid, "runtime monitoring: reference-model oracle on API call/return events of the real code (release + overflow-checked builds, Miri slice" + ("; thorough: coverage-guided libFuzzer + ASan over the decision tape of the generators with the same oracle inside" if pid in layers.MODEL_FUZZ_PROPS else "") + ")"),
     }
 
 claimed = sorted(layers.PROPS.keys())
